@@ -5,8 +5,8 @@ import json, os, shutil, sys
 ROOT = os.path.dirname(os.path.dirname(os.path.abspath(__file__)))
 mid, X, confirm, caught, missed = sys.argv[1:6]
 note = sys.argv[6] if len(sys.argv) > 6 else ""
-src = "/tmp/mut/%s.out" % mid
-dst = os.path.join(ROOT, "seeded", "%s-%s" % (mid, X))
+src = os.environ.get("KEEP_SRC") or "/tmp/mut/%s.out" % mid
+dst = os.path.join(ROOT, "seeded", os.environ.get("KEEP_DST") or "%s-%s" % (mid, X))
 os.makedirs(dst, exist_ok=True)
 shutil.copy(os.path.join(src, X + ".patch.diff"), os.path.join(dst, "patch.diff"))
 shutil.copy(os.path.join(src, X + ".demo.py"), os.path.join(dst, "demo.py"))
